@@ -63,6 +63,7 @@ func finalizeHarness() {
 	var oldHashes []common.Hash
 	var oldKeys [][]byte
 	var oldLive, oldLocked, oldSpentNow []bool
+	var oldEntries []*types.UtxoEntry
 	size := uint64(vU16("parentUtxoSetSize"))
 	for i := 0; i < nOld; i++ {
 		t := []string{"old0", "old1"}[i]
@@ -73,7 +74,10 @@ func finalizeHarness() {
 		if locked {
 			lock = big.NewInt(5)
 		}
-		e := &types.UtxoEntry{Denomination: 0, Address: make([]byte, 20), Lock: lock}
+		owner := make([]byte, 20)
+		owner[19] = vU8(t + "Owner")
+		e := &types.UtxoEntry{Denomination: 0, Address: owner, Lock: lock}
+		oldEntries = append(oldEntries, e)
 		key := rawdb.UtxoKey(h, 0)
 		live := vBool(t + "StillUnspent")
 		if live {
@@ -131,6 +135,19 @@ func finalizeHarness() {
 		}
 	}
 	vAssert("trim/recorded-for-undo", len(trimmed) == nTrim)
+	// each undo record is the output that was trimmed: its own outpoint, owner, denomination and lock
+	for _, t := range trimmed {
+		found := false
+		for i := 0; i < nOld; i++ {
+			var h common.Hash
+			h[31] = byte(0x10 + i)
+			if t.TxHash == h && t.Index == 0 {
+				found = true
+				vAssert("trim/undo-record-is-the-trimmed-output", t.UtxoEntry != nil && string(t.Address) == string(oldEntries[i].Address) && t.Denomination == oldEntries[i].Denomination && t.Lock.Cmp(oldEntries[i].Lock) == 0)
+			}
+		}
+		vAssert("trim/undo-record-names-a-trimmed-outpoint", found)
+	}
 	vAssert("commitment/set-size", newSize == expSize)
 	for k, v := range expect {
 		vAssert("commitment/multiset-equals-stored-set", msModel[k] == v)
